@@ -25,7 +25,18 @@ def configs(tier):
 def run(ctx):
     physics.explore(ctx, ID, configs(ctx.tier))
     physics.explore_register(ctx, ID, ctx.tier == "quick")
+    from mc.checks import c07b
+
+    n0 = ctx.n
+    for r in ctx.pmap(c07b.work, c07b.tasks(ctx.tier == "quick")):
+        ctx.add(r)
+    ctx.cov["bosonic_cat_states_checked"] = ctx.n - n0
+    ctx.cov["evaluations"] = ctx.n
 
 
 def replay(case):
+    if case.get("cat_physical"):
+        from mc.checks import c07b
+
+        return c07b.replay(case)
     return physics.replay_case(ID, case)
